@@ -9,7 +9,8 @@ from explore import Job
 import c04lib
 from c04lib import C04Inst, StatusInst
 
-FMT = "sink.valid, sink.data, sink.first, sink.last, source.ready[, extra inputs]"
+FMT = ("stream elements: sink.valid, sink.data, sink.first, sink.last, source.ready[, extra inputs]; packet.py "
+       "elements: port order of lean/LitexModel/Packet/Num.lean")
 
 
 def bounds(lean_open):
@@ -135,6 +136,103 @@ def mk_chain3(depth, layout, tokens=None):
                       capacity=depth + 2, tokens=tokens)
 
 
+# ---------------------------------------------------------------------------------------------------------
+# packet.py elements (instances from c16lib's constructors, Lean machines of LitexModel/Packet through our driver)
+
+# Bounds of the cooperative watchdog for the packet elements (cycles to a handshake / to a delivery).  Only the
+# Dispatcher bound is backed by a Lean theorem (dispatcher_progress); the others are declared here, measured to be
+# tight on the unchanged tree, and enforced with the usual slack of 2 cycles.
+PK = dict(k_arb=(2, 2), k_disp=1, k_fifo=(1, None), k_fifo_buf=(1, None), k_pk=(1, 1), k_dpk=(1, None))
+
+
+def mk_packet(kind, *a, **kw):
+    import c16lib as L16
+    V = c04lib
+    if kind == "arbiter":
+        n = a[0]
+        inner = L16.arbiter_inst(kw.pop("name"), n, **kw)
+        return V.PortC04Inst(inner, V.ArbiterView(n, inner.alphabet, *PK["k_arb"]))
+    if kind == "dispatcher":
+        m = a[0]
+        one_hot = kw.get("one_hot", False)
+        inner = L16.dispatcher_inst(kw.pop("name"), m, **kw)
+        nsel = 1 << len(inner.in_sigs[3])
+        return V.PortC04Inst(inner, V.DispatcherView(m, nsel, inner.alphabet, PK["k_disp"]))
+    if kind == "packetfifo":
+        pd = a[0]
+        buffered = kw.get("buffered", False)
+        inner = L16.packetfifo_inst(kw.pop("name"), pd, max_len=pd, **kw)
+        k_hs, _ = PK["k_fifo_buf"] if buffered else PK["k_fifo"]
+        # a complete packet of <= pd beats is offered pd + 1 (+2 buffered) cycles after its first beat at the latest
+        return V.PortC04Inst(inner, V.PacketFifoView(inner.alphabet or [(1, 0, 0, 0, 1), (1, 0, 0, 1, 1)], pd, k_hs,
+                                                     pd + (2 if buffered else 1)))
+    if kind == "packetizer":
+        Bb, H, f, sw = a
+        W = (8 * H) // (8 * Bb)
+        inner = L16.packetizer_inst(kw.pop("name"), Bb, H, f, sw, **kw)
+        nf = len(inner.hdr.table)
+        alpha = inner.alphabet or [(1, 1, l) + tuple(inner.hdr.max_vals()) + (1,) for l in (0, 1)]
+        return V.PortC04Inst(inner, V.SSView(alpha, *PK["k_pk"], last_idx=2))
+    if kind == "depacketizer":
+        Bb, H, f, sw = a
+        W = (8 * H) // (8 * Bb)
+        inner = L16.depacketizer_inst(kw.pop("name"), Bb, H, f, sw, **kw)
+        alpha = inner.alphabet or [(1, 1, l, 1) for l in (0, 1)]
+        return V.PortC04Inst(inner, V.DepackView(alpha, W, PK["k_dpk"][0], W + 1))
+    raise ValueError(kind)
+
+
+def packet_jobs(tier):
+    from props import c16
+    quick = tier == "quick"
+    J = []
+    mx = 20000 if quick else 300000
+    A = lambda mk: J.append(Job("AP", mk, max_states=mx, deadline_s=40 if quick else 300))
+    B = lambda mk: J.append(Job("BP", mk, cycles=3000 if quick else 30000, runs=1 if quick else 2,
+                                watch_every=8 if quick else 16))
+    T2 = [(0, 0, 0), (1, 1, 1)]
+    T3 = [(0, 0, 0), (1, 0, 1), (0, 1, 1)]
+    A(lambda: mk_packet("arbiter", 2, name="Arbiter(2)"))
+    A(lambda: mk_packet("arbiter", 3, name="Arbiter(3)", data_values=(0,) if quick else (0, 1)))
+    A(lambda: mk_packet("dispatcher", 2, name="Dispatcher(2)"))
+    A(lambda: mk_packet("dispatcher", 3, name="Dispatcher(3)"))             # sel = 3 addresses no slave
+    A(lambda: mk_packet("dispatcher", 2, name="Dispatcher(2,one_hot)", one_hot=True))
+    A(lambda: mk_packet("dispatcher", 3, name="Dispatcher(3,one_hot)", one_hot=True, data_values=(1,)))
+    A(lambda: mk_packet("packetfifo", 2, name="PacketFIFO(2)", tokens=T2 if quick else T3))
+    A(lambda: mk_packet("packetfifo", 3, name="PacketFIFO(3,param_depth=1)/T2", qd=1, tokens=T2))   # param < payload
+    A(lambda: mk_packet("packetfifo", 2, name="PacketFIFO(2,buffered)", buffered=True, tokens=T2))
+    if not quick:
+        A(lambda: mk_packet("packetfifo", 3, name="PacketFIFO(3)/T2", tokens=T2))
+        A(lambda: mk_packet("packetfifo", 4, name="PacketFIFO(4,param_depth=1)/T2", qd=1, tokens=T2))
+        A(lambda: mk_packet("packetfifo", 3, name="PacketFIFO(3,param_depth=1)/T3", qd=1, tokens=T3))
+    for (Bb, H, f, sw, pats) in ((1, 1, c16.H1, False, (0, 1)), (1, 2, c16.H2, True, (1, 2)),
+                                 (2, 2, c16.H2S, False, (1, 2)), (2, 4, c16.H4, True, (1, 14))):
+        dv = c16.bit_per_byte(Bb)[:2] if quick else c16.bit_per_byte(Bb)
+        hv = c16.hvals(f, H, pats)
+        tag = "dw%d/H%d" % (8 * Bb, H)
+        A(lambda Bb=Bb, H=H, f=f, sw=sw, dv=dv, hv=hv, tag=tag:
+          mk_packet("packetizer", Bb, H, f, sw, name="Packetizer/" + tag, data_values=dv, hdr_values=hv))
+        A(lambda Bb=Bb, H=H, f=f, sw=sw, dv=dv, tag=tag:
+          mk_packet("depacketizer", Bb, H, f, sw, name="Depacketizer/" + tag, data_values=dv))
+    if not quick:
+        A(lambda: mk_packet("dispatcher", 4, name="Dispatcher(4)"))
+        A(lambda: mk_packet("arbiter", 4, name="Arbiter(4)", data_values=(0,)))
+        A(lambda: mk_packet("packetfifo", 3, name="PacketFIFO(3,param_depth=1,buffered)/T2", qd=1, buffered=True,
+                            tokens=T2))
+    B(lambda: mk_packet("arbiter", 3, name="Arbiter(3)/8b", dwid=8, alphabet=False))
+    B(lambda: mk_packet("dispatcher", 3, name="Dispatcher(3)/8b", dwid=8, alphabet=False))
+    B(lambda: mk_packet("dispatcher", 4, name="Dispatcher(4,one_hot)/8b", one_hot=True, dwid=8, alphabet=False))
+    B(lambda: mk_packet("packetfifo", 8, name="PacketFIFO(8,param_depth=2)/8b", qd=2, dwid=8, pwid=8, alphabet=False))
+    B(lambda: mk_packet("packetfifo", 8, name="PacketFIFO(8,buffered)/8b", buffered=True, dwid=8, pwid=8,
+                        alphabet=False))
+    B(lambda: mk_packet("packetizer", 2, 14, c16.ETH_LIKE, True, name="Packetizer/eth/dw16/H14", alphabet=False,
+                        garbage="random"))
+    B(lambda: mk_packet("depacketizer", 4, 20, c16.IP_LIKE, True, name="Depacketizer/ip/dw32/H20", alphabet=False,
+                        garbage="random"))
+    return J
+
+
+
 def _is_route(job):
     """Multiplexer/Demultiplexer jobs of C03 (recognised without building the instance: their constructors live
     in c03lib as MuxInst/DemuxInst)."""
@@ -165,6 +263,7 @@ def jobs(tier):
                  deadline_s=40 if quick else 400))
     J.append(Job("B", lambda: wrap_inst(mk_chain3(8, [("data", 16)]), "B"), cycles=3000 if quick else 30000,
                  runs=1 if quick else 2, watch_every=8 if quick else 16))
+    J += packet_jobs(tier)
     J.append(Job("A0", lambda: StatusInst(), max_states=10000))
     J.append(Job("B0", lambda: StatusInst("packet.Status/random"), cycles=4000 if quick else 40000, runs=1))
     return J
@@ -249,7 +348,8 @@ def search(ctx, disagreements, proof_info):
                                              deadline=deadline, tries=60)
             if r:
                 return {"instance": inst.name, "trace": [list(l) for l in r[0]], "monitor": r[1],
-                        "letter_format": "valid, last, ready"}
+                        "letter_format": "port order of the instance's machine (LitexModel/Packet/Num.lean, "
+                                         "c03lib Mux/Demux, or valid,last,ready for packet.Status)"}
             continue
         inst = all_jobs[j].make()
         if isinstance(inst, str):
